@@ -762,7 +762,16 @@ class C15(fw.Check):
         "document_vocab", "id_in_all_keys", "mapped_tags_in_vocab", "propCleanup_logs",
         "secCleanup_logs", "docCleanup_logs", "secCleanup_keeps", "docCleanup_keeps",
         "unnamed_property_logged", "convert_source_unchanged", "write_only_target", "convert_root",
-        "convert_version", "valToTree_text", "valToTree_attrs", "propToTree_vals"]]
+        "convert_version", "valToTree_text", "valToTree_attrs", "propToTree_vals",
+        # whole-tree composition readDoc (convertTree x) = content10 x (proof extension 2026-09-30)
+        "sampleDoc_wf", "lifted_element_unique", "last_wins_is_first_wins", "property_content",
+        "section_content", "convert_preserves_content", "convert_preserves_content_wf10",
+        "wf10_implies_convWF", "fresh_uuid4_ok", "fresh_marker_ok", "add_id_twice",
+        "property_content_needs_unique_tags", "property_content_needs_no_value_id",
+        "property_content_needs_fresh_canonical",
+        # whole-tree structural acceptance by the strict reader
+        "convert_accepted", "wf10_implies_loadWF", "convert_loadable_with_same_content",
+        "convert_accepted_needs_type"]]
     trusted_base = [
         "Lean 4.33.0 kernel; axioms propext, Classical.choice, Quot.sound only (audited per theorem)",
         "hand-written model lean/OdmlModel/Model/Conv.lean + ConvXml.lean, tied to /repo by this run",
